@@ -392,10 +392,10 @@ func (env *Env) indexTV(b, i TV) TV {
 	switch u := b.Ty.Underlying().(type) {
 	case *types.Slice:
 		if bt, ok := env.lookupBacking(b.T); ok {
-			return TV{app("select", app(env.derefOf(bt), bt), app("idx", b.T, i.T)), u.Elem()}
+			return TV{app("select", app(env.derefOf(bt), bt), app("idx", app("s_off", b.T), i.T)), u.Elem()}
 		}
 		h := env.heap(e.elemHeap(u.Elem()))
-		return TV{app("select", app("select", h, app("s_arr", b.T)), app("idx", b.T, i.T)), u.Elem()}
+		return TV{app("select", app("select", h, app("s_arr", b.T)), app("idx", app("s_off", b.T), i.T)), u.Elem()}
 	case *types.Array:
 		return TV{app("select", b.T, i.T), u.Elem()}
 	case *types.Map:
@@ -692,35 +692,40 @@ func (e *Enc) recInfo(sf *SpecFunc) *recInfo {
 	if ri, ok := m[sf.Pkg+"."+sf.Name]; ok {
 		return ri
 	}
-	rt, err := e.P.resolveType(sf.Result, sf.Pkg)
-	if err != nil {
-		specFail("%v", err)
-	}
-	ri := &recInfo{result: rt, arrParam: map[int]string{}, elemSort: map[int]string{}}
-	m[sf.Pkg+"."+sf.Name] = ri
-	for i, p := range sf.Params {
-		pt, err := e.P.resolveType(p.Type, sf.Pkg)
+	// all members of sf's recursion cycle share one list of heap parameters (fixpoint of what their bodies read)
+	members := e.P.specSCC(sf)
+	infos := map[*SpecFunc]*recInfo{}
+	for _, mem := range members {
+		rt, err := e.P.resolveType(mem.Result, mem.Pkg)
 		if err != nil {
 			specFail("%v", err)
 		}
-		if sl, ok := pt.Underlying().(*types.Slice); ok {
-			ri.arrParam[i] = e.elemHeap(sl.Elem())
-			ri.elemSort[i] = e.sortOf(sl.Elem())
+		ri := &recInfo{result: rt, arrParam: map[int]string{}, elemSort: map[int]string{}}
+		for i, p := range mem.Params {
+			pt, err := e.P.resolveType(p.Type, mem.Pkg)
+			if err != nil {
+				specFail("%v", err)
+			}
+			if sl, ok := pt.Underlying().(*types.Slice); ok {
+				ri.arrParam[i] = e.elemHeap(sl.Elem())
+				ri.elemSort[i] = e.sortOf(sl.Elem())
+			}
 		}
+		m[mem.Pkg+"."+mem.Name] = ri
+		infos[mem] = ri
 	}
-	// pass 1: translate the body with symbolic heaps to learn which heaps are read
-	mk := func(heaps []string) (Term, map[string]bool, []string) {
-		ri.heaps = heaps
+	mk := func(mem *SpecFunc) (Term, map[string]bool, []string) {
+		ri := infos[mem]
 		st := &State{kind: sEntry, h: map[string]Term{}}
 		touched := map[string]bool{}
-		env := &Env{e: e, vars: map[string]TV{}, st: st, old: st, pkg: sf.Pkg, alloc0: "alloc_formal", touched: touched}
+		env := &Env{e: e, vars: map[string]TV{}, st: st, old: st, pkg: mem.Pkg, alloc0: "alloc_formal", touched: touched}
 		env.lazy = func(name string) Term { return "hp_" + sanitize(name) }
 		var binders []string
 		env.backing = map[Term]Term{}
 		env.backingDeref = map[Term]string{}
 		env.recFuel = "fuel"
-		for i, p := range sf.Params {
-			pt, err := e.P.resolveType(p.Type, sf.Pkg)
+		for i, p := range mem.Params {
+			pt, err := e.P.resolveType(p.Type, mem.Pkg)
 			if err != nil {
 				specFail("%v", err)
 			}
@@ -738,37 +743,72 @@ func (e *Enc) recInfo(sf *SpecFunc) *recInfo {
 				binders = append(binders, fmt.Sprintf("(%s Int)", bn))
 			}
 		}
-		body := env.tr(sf.Body)
+		body := env.tr(mem.Body)
 		return body.T, touched, binders
 	}
-	_, touched, _ := mk(nil)
+	union := map[string]bool{}
+	for round := 0; round < 6; round++ {
+		var cur []string
+		for h := range union {
+			cur = append(cur, h)
+		}
+		sortStrings(cur)
+		for _, mem := range members {
+			infos[mem].heaps = cur
+		}
+		grew := false
+		for _, mem := range members {
+			_, touched, _ := mk(mem)
+			for h := range touched {
+				if !union[h] {
+					union[h] = true
+					grew = true
+				}
+			}
+		}
+		if !grew {
+			break
+		}
+	}
 	var heaps []string
-	for h := range touched {
+	for h := range union {
 		heaps = append(heaps, h)
 	}
 	sortStrings(heaps)
-	body, _, binders := mk(heaps)
-	for _, h := range heaps {
-		binders = append(binders, fmt.Sprintf("(hp_%s %s)", sanitize(h), e.heapSortOf(h)))
+	for _, mem := range members {
+		infos[mem].heaps = heaps
 	}
 	// Dafny-style fuel encoding: an uninterpreted function with one-step unfolding
 	// axioms, so that the solver unfolds a bounded number of times per ground term.
 	e.decl("sort:Fuel", "(declare-datatypes ((Fuel 0)) (((FZ) (FS (fpred Fuel)))))")
-	var sorts, names []string
-	for _, b := range binders {
-		f := strings.Fields(strings.Trim(b, "()"))
-		names = append(names, f[0])
-		sorts = append(sorts, strings.TrimPrefix(b[1:len(b)-1], f[0]+" "))
+	type emit struct {
+		fname, allB, lhs, body, rest string
 	}
-	fname := "rec_" + sanitize(shortPkg(sf.Pkg)+"_"+sf.Name)
-	e.decls = append(e.decls, fmt.Sprintf("(declare-fun %s (Fuel %s) %s)", fname, strings.Join(sorts, " "), e.sortOf(rt)))
-	allB := "(fuel Fuel) " + strings.Join(binders, " ")
-	lhs := fmt.Sprintf("(%s (FS fuel) %s)", fname, strings.Join(names, " "))
-	e.axioms = append(e.axioms,
-		fmt.Sprintf("(assert (forall (%s) (! (= %s %s) :pattern (%s))))", allB, lhs, body, lhs),
-		fmt.Sprintf("(assert (forall (%s) (! (= %s (%s fuel %s)) :pattern (%s))))", allB, lhs, fname, strings.Join(names, " "), lhs))
-	e.note("recursive spec function " + sf.Name + " (fuel-bounded unfolding axioms)")
-	return ri
+	var emits []emit
+	for _, mem := range members {
+		body, _, binders := mk(mem)
+		for _, h := range heaps {
+			binders = append(binders, fmt.Sprintf("(hp_%s %s)", sanitize(h), e.heapSortOf(h)))
+		}
+		var sorts, names []string
+		for _, b := range binders {
+			f := strings.Fields(strings.Trim(b, "()"))
+			names = append(names, f[0])
+			sorts = append(sorts, strings.TrimPrefix(b[1:len(b)-1], f[0]+" "))
+		}
+		fname := "rec_" + sanitize(shortPkg(mem.Pkg)+"_"+mem.Name)
+		e.decls = append(e.decls, fmt.Sprintf("(declare-fun %s (Fuel %s) %s)", fname, strings.Join(sorts, " "), e.sortOf(infos[mem].result)))
+		allB := "(fuel Fuel) " + strings.Join(binders, " ")
+		lhs := fmt.Sprintf("(%s (FS fuel) %s)", fname, strings.Join(names, " "))
+		emits = append(emits, emit{fname, allB, lhs, body, strings.Join(names, " ")})
+		e.note("recursive spec function " + mem.Name + " (fuel-bounded unfolding axioms)")
+	}
+	for _, em := range emits {
+		e.axioms = append(e.axioms,
+			fmt.Sprintf("(assert (forall (%s) (! (= %s %s) :pattern (%s))))", em.allB, em.lhs, em.body, em.lhs),
+			fmt.Sprintf("(assert (forall (%s) (! (= %s (%s fuel %s)) :pattern (%s))))", em.allB, em.lhs, em.fname, em.rest, em.lhs))
+	}
+	return m[sf.Pkg+"."+sf.Name]
 }
 
 func sortStrings(s []string) {
@@ -857,6 +897,54 @@ func (env *Env) trCall(x *ECall) TV {
 		}
 		has, _, _ := e.mapHeaps(mt)
 		return TV{app("select", app("select", env.heap(has), m.T), k.T), tyBool}
+	case "ext":
+		// ext(pkg.Func, args...): the same uninterpreted function that abstracts calls to a pure external
+		if len(x.Args) < 1 {
+			specFail("ext needs a function")
+		}
+		fe, ok := x.Args[0].(*EField)
+		id, ok2 := fe.X.(*EIdent)
+		if !ok || !ok2 {
+			specFail("ext: first argument must be pkg.Func")
+		}
+		pp := e.P.resolvePkgName(id.Name)
+		pk := e.P.byPath[pp]
+		if pk == nil {
+			specFail("ext: unknown package %s", id.Name)
+		}
+		fobj, _ := pk.Types.Scope().Lookup(fe.Name).(*types.Func)
+		if fobj == nil {
+			specFail("ext: unknown function %s.%s", id.Name, fe.Name)
+		}
+		sig := fobj.Type().(*types.Signature)
+		var as, sorts []string
+		for i, a := range x.Args[1:] {
+			v := env.tr(a)
+			as = append(as, v.T)
+			if i < sig.Params().Len() {
+				sorts = append(sorts, e.sortOf(sig.Params().At(i).Type()))
+			} else {
+				sorts = append(sorts, e.sortOf(v.Ty))
+			}
+		}
+		rt := sig.Results().At(0).Type()
+		name := fmt.Sprintf("ext_%s_%s_%d_n%d", sanitize(id.Name), sanitize(fe.Name), 0, len(as))
+		e.decl("fn:"+name, fmt.Sprintf("(declare-fun %s (%s) %s)", name, strings.Join(sorts, " "), e.sortOf(rt)))
+		return TV{app(name, as...), rt}
+	case "seen":
+		// seen(it, k): the map-range iterator it has already yielded key k
+		argN(2)
+		it := env.tr(x.Args[0])
+		k := env.tr(x.Args[1])
+		mt, ok := it.Ty.Underlying().(*types.Map)
+		if !ok {
+			specFail("seen: first argument must be a loop's iter alias")
+		}
+		name := "iter_" + e.mangle(mt.Key())
+		if _, ok := e.heapSort[name]; !ok {
+			e.heapSort[name] = "(Array Int (Array " + e.sortOf(mt.Key()) + " Bool))"
+		}
+		return TV{app("select", app("select", env.heap(name), it.T), k.T), tyBool}
 	case "isnan":
 		argN(1)
 		return TV{e.fop("fp.isNaN", env.tr(x.Args[0]).T), tyBool}
@@ -878,7 +966,7 @@ func (env *Env) trCall(x *ECall) TV {
 		lo, hi := env.tr(x.Args[1]).T, env.tr(x.Args[2]).T
 		e.declBytesStr()
 		h := env.heap(e.elemHeap(sl.Elem()))
-		return TV{app("bytes_str", app("select", h, app("s_arr", b.T)), app("idx", b.T, lo), app("-", hi, lo)), tyString}
+		return TV{app("bytes_str", app("select", h, app("s_arr", b.T)), app("idx", app("s_off", b.T), lo), app("-", hi, lo)), tyString}
 	case "trunc":
 		argN(1)
 		e.decl("fn:f2i", "(declare-fun f2i (F64) Int)")
